@@ -275,6 +275,19 @@ func (e *Env) ident(name string) *SVal {
 	case "nil":
 		return &SVal{T: types.Typ[types.UntypedNil], K: KPtr, Term: bv64(0)}
 	}
+	if e.f != nil && e.f.fn != nil && e.f.fn.Synthetic == "" {
+		// a variable of the enclosing function captured by this closure: go/ssa passes its address; the name
+		// means the variable's current value
+		for _, fv := range e.f.fn.FreeVars {
+			if fv.Name() == name {
+				if p, ok := e.f.vals[fv]; ok {
+					if pt, isPtr := fv.Type().Underlying().(*types.Pointer); isPtr {
+						return e.g.load(e.cur, p, pt.Elem())
+					}
+				}
+			}
+		}
+	}
 	if e.f != nil {
 		// an address-taken local (captured by a closure, named result with defers, &x, a struct assigned
 		// field by field): its current value - SSA debug references to such a variable only name the value it
@@ -1179,10 +1192,20 @@ func (e *Env) call(x *ECall) *SVal {
 			return e.evalLoc(x.Args[0])
 		case "ptrint": // ptrint(p): the address held by pointer p as an integer (for comparison with ifaceptr)
 			v := e.eval(x.Args[0])
+			if v.K == KChan || v.K == KMap {
+				// the identity of a channel or map
+				return scalar(tUPtr, KInt, v.Term)
+			}
 			if v.K != KPtr {
 				v = e.evalLoc(x.Args[0])
 			}
 			return scalar(tUPtr, KInt, v.Term)
+		case "recvcount": // recvcount(ch): ghost, how many values the executing goroutine has taken from channel ch
+			v := e.eval(x.Args[0])
+			if v.K != KChan {
+				e.fail("recvcount: not a channel")
+			}
+			return scalar(tInt, KInt, sSel(g.heapGet(e.cur, recvHeap, recvSort), v.Term))
 		case "ifaceptr": // ifaceptr(x): the pointer an interface value carries (its payload), as an untyped address
 			v := e.eval(x.Args[0])
 			if v.K != KIface {
